@@ -278,6 +278,8 @@ def check(ctx: Ctx) -> None:
     auto_memo_check(ctx, 'C02.e', [OF])
     from ..commit import check_family
     check_family(ctx, 'C02.g', ['OFDM', 'OfdmOneTapEqualizer'], floor=1)
+    from .c03 import check_delays_applied
+    check_delays_applied(ctx, 'C02.h')
 
 
 def thorough(ctx: Ctx) -> None:
